@@ -309,6 +309,29 @@ pub fn run(cli: &Cli, rep: &Report) {
         run_phase(rep, cli, "carry_runs", 0, ccases.len(), &|i| Some(ccases[i].clone()));
     }
 
+    // Phase 3e: the uncompressed fallback of the optimising encoder. When a chunk does not pay off, what is stored
+    // uncompressed is what was encoded *plus the parser's read-ahead*, which can make it longer than the 64 KiB one
+    // uncompressed chunk holds: l incompressible bytes (l swept across the region where the compressed limit is hit),
+    // then ~1 KiB of near-copies of early data (a long pending optimum path), then 4000 bytes copied from the start
+    // (distance > 64 KiB, so the first 64 KiB must still be in the decoder's dictionary).
+    {
+        let mut ucases: Vec<Case> = vec![];
+        let step = if thorough { 2 } else { 8 };
+        for l in (64_400usize..=65_560).step_by(step) {
+            for phase in [0u64, 5] {
+                let sh = vec![Seg::R(l), Seg::E(l - 1000, 960, 1000 + phase), Seg::D(l + 960 - 100, 4000)];
+                for o in [
+                    Opts { dict: 1 << 20, lc: 3, lp: 0, pb: 2, fast: false, bt4: true, nice: 273, depth: 0 },
+                    Opts { dict: 1 << 17, lc: 3, lp: 0, pb: 2, fast: false, bt4: false, nice: 64, depth: 0 },
+                ] {
+                    ucases.push(Case { cont: Container::Lzma2, opts: o, input: Input::Shape(sh.clone()), ops: vec![], bias: 0 });
+                }
+            }
+        }
+        rep.extra("uncompressed_fallback_sweep", json!({"cases": ucases.len()}));
+        run_phase(rep, cli, "uncompressed_fallback_sweep", 0, ucases.len(), &|i| Some(ucases[i].clone()));
+    }
+
     // Phase 4: renormalisation through a biased start position
     let bias_inputs: Vec<Input> = {
         let mut v: Vec<Input> = vec![];
